@@ -40,7 +40,7 @@ MANIFEST = {
         "note": ("Modelled, not verified: the hand translation of the C++ into the model (validated by the step-by-step replay, not proved); sequentially consistent atomics; the "
                  "simulated POSIX semantics (mutex, condition variable with spurious wake-ups, create/join, virtual clock) is an assumption shared by scheduler and model; scheduling "
                  "points of the implementation run are atomic operations and pthread calls only (plain volatile reads are not separately interleaved in the run, they are in the "
-                 "theorems); usize wrap-around outside.  OPEN (stated in Props.lean, not proved): `join_eventually` under weak fairness; proved of it on the FULL model of the repaired code: its deadlock-freedom core "
+                 "theorems); usize wrap-around outside.  OPEN (stated in Props.lean, not proved): `join_eventually` under weak fairness; proved of it on the FULL model of the repaired code: `join_eventually_partial` / `terminal_state_is_complete` (a state in which nothing can step has every thread finished and every call executed and freed exactly once), its deadlock-freedom core "
                  "`no_stuck` (unconditional: whenever a thread is unfinished some thread can step; worker/producer/join/shutdown sides, spawn arithmetic, token conservation, "
                  "Signal-layer progress) and the safety half `join_after_completion`; missing: the ranking argument under fairness; the scheduler verdict, the "
                  "exhaustive model exploration of small configurations and the random model walks are tests.  The model mirrors the REPAIRED code "
@@ -684,7 +684,7 @@ def check(ctx):
 
 
 OPEN_STATEMENTS = [
-    "join_eventually: under weak fairness every join of the repaired full model eventually returns (stated in Props.lean, comment block OPEN). Proved of it: its deadlock-freedom core `no_stuck` (unconditional) and the safety half `join_after_completion`; missing: a ranking argument under fairness (CAS retry loops, spin lock and re-check loops are lock-free, not wait-free)",
+    "join_eventually: under weak fairness every join of the repaired full model eventually returns (stated in Props.lean, comment block OPEN). Proved of it: `join_eventually_partial` (every maximal finite schedule ends with all joins returned and every call executed exactly once = terminal_state_is_complete), its deadlock-freedom core `no_stuck` (unconditional) and the safety half `join_after_completion`; missing: that every weakly fair schedule is finite, a ranking argument (CAS retry loops, spin lock and re-check loops are lock-free, not wait-free)",
 ]
 
 
